@@ -66,6 +66,8 @@ def jobs(tier, seed):
         out.append({'fn': 'eps', 'tier': tier, 'seed': seed, 'j': j})
     for k in range(9):
         out.append({'fn': 'trace', 'tier': tier, 'seed': seed, 'k': k})
+    for k in range(4 if tier == 'quick' else 1):
+        out.append({'fn': 'history', 'tier': tier, 'seed': seed, 'k': k})
     return out
 
 
@@ -273,8 +275,44 @@ def check_trace(acc, job):
     acc.sample({'trace': 'cdp_rho', 'args': [es[a], ds[b]], 'loop_states': 1000})
 
 
+def fresh_module():
+    import matplotlib
+    matplotlib.use('Agg')
+    path = os.path.join(REPO, 'mechanisms', 'cdp2adp.py')
+    spec = importlib.util.spec_from_file_location('verif_cdp2adp_fresh', path)
+    m = importlib.util.module_from_spec(spec)
+    spec.loader.exec_module(m)
+    return m
+
+
+def check_history(acc, job):
+    """E3: every ordered pair of calls from {cdp_delta, cdp_eps, cdp_rho} with numerically EQUAL arguments on one fresh
+    module instance; the second answer must equal what a fresh instance returns for that call alone"""
+    pts = [(1.0, 1e-9), (0.5, 1e-5), (0.01, 0.1), (3.0, 1e-6)][job['k'] % 4:][:1] if job['tier'] == 'quick' else [(1.0, 1e-9), (0.5, 1e-5), (0.01, 0.1), (3.0, 1e-6)]
+    fns = ['cdp_delta', 'cdp_eps', 'cdp_rho']
+    for x, d in pts:
+        alone = {f: getattr(fresh_module(), f)(x, d) for f in fns}
+        for f1 in fns:
+            for f2 in fns:
+                m = fresh_module()
+                getattr(m, f1)(x, d)
+                got = getattr(m, f2)(x, d)
+                case = {'fn': 'history', 'calls': [f1, f2], 'args': [x, d]}
+                acc.case(case)
+                acc.states += 2
+                acc.transitions += 2
+                acc.traces += 1
+                if not (got == alone[f2] or abs(got - alone[f2]) <= 1e-12 * abs(alone[f2])):
+                    acc.violate(case, {'kind': 'history-dependence', 'fn': f2}, '%s(%g,%g) returns %r after a call of %s with the same arguments, %r on its own' % (f2, x, d, got, f1, alone[f2]))
+        acc.outcome('history')
+    acc.sample({'history': ['cdp_eps(1.0,1e-9)', 'cdp_rho(1.0,1e-9)']})
+
+
 def run_job(job):
     acc = Acc()
+    if job['fn'] == 'history':
+        check_history(acc, job)
+        return acc
     {'delta': check_delta_rows, 'rho': check_rho_col, 'eps': check_eps_col, 'trace': check_trace}[job['fn']](acc, job)
     if job['fn'] != 'trace':
         acc.states += acc.evals
@@ -286,6 +324,17 @@ def replay(case):
     m = cdp()
     acc = Acc()
     fn = case['fn']
+    if fn == 'history':
+        f1, f2 = case['calls']
+        x, d = case['args']
+        alone = getattr(fresh_module(), f2)(x, d)
+        m2 = fresh_module()
+        getattr(m2, f1)(x, d)
+        got = getattr(m2, f2)(x, d)
+        print('%s alone: %r; after %s: %r' % (f2, alone, f1, got))
+        if not (got == alone or abs(got - alone) <= 1e-12 * abs(alone)):
+            acc.violate(case, {'kind': 'history-dependence'}, '%s differs after %s' % (f2, f1))
+        return acc.violations
     if 'mono' in case:
         f, a1, a2, direction = case['mono']
         v1, v2 = getattr(m, f)(*a1), getattr(m, f)(*a2)
